@@ -133,6 +133,14 @@ def parseEv (toks : List String) : Option (Ev FTag FBlob × List Nat) :=
     let cid ← cid.toNat?
     let env ← env? x i f
     pure (.retryTimeout cid env, [cid])
+  | ["join", cid, ident, pk, w, y, offered] => do
+    let cid ← cid.toNat?
+    let ident ← ident.toNat?
+    let pk ← pk.toNat?
+    let w ← wire? w
+    let y ← y.toNat?
+    let offered ← natList? offered
+    pure (.join cid ident pk w y offered, [cid])
   | ["oncreate", cid, ident, pk, w, y, offered] => do
     let cid ← cid.toNat?
     let ident ← ident.toNat?
